@@ -223,7 +223,8 @@ pub fn gen_frames(rng: &mut Rng, v: (u8, u8), ports: &[PortSpec], n: usize) -> V
     let jumps = L::gte(v, (2, 2)) && rng.chance(1, 5);
     let item_class = if L::gte(v, (3, 0)) { rng.below(4) } else { 0 };
     let mut frames = vec![];
-    let mut id: i32 = -123;
+    // from 2.2 on ids are whatever the recorder says; a few recordings start just below -123
+    let mut id: i32 = if jumps && rng.chance(1, 4) { -123 - 1 - rng.below(3) as i32 } else { -123 };
     let mut k = 0;
     while k < n {
         let mut present = 0u8;
@@ -268,10 +269,13 @@ pub fn gen_frames(rng: &mut Rng, v: (u8, u8), ports: &[PortSpec], n: usize) -> V
                 id = id.saturating_add(0);
             }
         } else if jumps && rng.chance(1, 50) {
-            id = match rng.below(5) {
+            id = match rng.below(8) {
                 0 => i32::MIN,
                 1 => i32::MAX,
                 2 => 0,
+                // just below the first frame number a game normally produces
+                3 => -124,
+                4 => -125 - rng.below(3) as i32,
                 _ => rng.next_u32() as i32,
             };
         } else {
@@ -393,6 +397,7 @@ pub fn gen_recorder(rng: &mut Rng, cfg: &GenCfg) -> RecorderSpec {
         raw_len_zero: false,
         sticky: *rng.pick(&[0u8, 0, 2, 5]),
         blank: *rng.pick(&[0u8, 0, 0, 6, 20]),
+        idle: false,
     }
 }
 
